@@ -674,6 +674,101 @@ theorem forEach_error_iff {p : Proj} (g : Good p) (names : List String) (opts : 
 full-strength statement is `forEach_calls_exact`, which excuses exactly the edges on a cycle -/
 theorem forEach_dependencies_first_needs_acyclic : ¬Neg.DepsFirst := Neg.deps_first_fails_on_a_cycle
 
+/-! ### `ForEachService` is a function of the project, the names and the options (as a set of calls) -/
+
+/-- the calls of `fn` are a function of the project, the names and the options **as a set** (their order among
+siblings is Go's map order): two iteration orders of the same maps give the same set of calls -/
+theorem forEach_calls_perm {p p' : Proj} (h : Partition p) (nk : NamesOK p) (e : SameProj p p') (names : List String)
+    (opts : List Policy) {seen calls seen' calls' : List String}
+    (hq : forEachCalls p names opts = .ok seen calls) (hq' : forEachCalls p' names opts = .ok seen' calls') :
+    calls.Perm calls' := by
+  have h' := partition_perm h e
+  have nk' := namesOK_perm nk e.1 e.2.1
+  have es := lookEq_of_perm e.1 h.1
+  have S := forEach_calls_exact h nk names opts hq
+  have S' := forEach_calls_exact h' nk' names opts hq'
+  rw [List.perm_ext_iff_of_nodup S.1 S'.1]
+  intro x
+  have roots : ∀ r, r ∈ rootsOf p names ↔ r ∈ rootsOf p' names := by
+    intro r
+    unfold rootsOf
+    by_cases hn : names.isEmpty = true
+    · simp only [hn, if_true]; exact mem_keys_lookEq es r
+    · simp only [hn]; exact Iff.rfl
+  constructor
+  · intro hx
+    apply S'.2.1.2
+    rw [closure_eq_reach h'.1]
+    have := (closure_eq_reach h.1 _ _ x).1 (S.2.1.1 x hx)
+    exact Reach.mono (fun r hr => (roots r).1 hr) (reach_lookEq es this)
+  · intro hx
+    apply S.2.1.2
+    rw [closure_eq_reach h.1]
+    have := (closure_eq_reach h'.1 _ _ x).1 (S'.2.1.1 x hx)
+    exact Reach.mono (fun r hr => (roots r).2 hr) (reach_lookEq (fun k => (es k).symm) this)
+
+
+
+theorem reach_nil {svcs : AL Svc} {pol : Policy} {x : String} : ¬Reach svcs pol [] x := by
+  intro h
+  induction h with
+  | root hr _ => cases hr
+  | step _ _ ih => exact ih
+
+/-- the rejection condition of `ForEachService`, spelled out -/
+theorem forEach_error_iff' {p : Proj} (g : Good p) (names : List String) (opts : List Policy) :
+    forEachCalls p names opts = .noSuchService ↔
+      (∃ n ∈ rootsOf p names, n ∉ keys p.services) ∨
+      ∃ x, Reach p.services (policyOf opts) (rootsOf p names) x ∧ MissingRequired p.services (policyOf opts) x := by
+  rw [forEach_error_iff g]
+  unfold eachWanted
+  by_cases hr : rootsOf p names = []
+  · rw [hr]
+    have hc : closure p.services (policyOf opts) [] = [] := by
+      unfold closure
+      have : ∀ n, closureN p.services (policyOf opts) n [] = [] := by
+        intro n; induction n with
+        | zero => rfl
+        | succ n ih => simp [closureN, expand, ih]
+      simpa using this _
+    have : selectWanted p [] (policyOf opts) ≠ none := by simp [selectWanted, hc]
+    constructor
+    · intro c; exact absurd c this
+    · rintro (⟨n, hn, _⟩ | ⟨x, hx, _⟩)
+      · cases hn
+      · exact absurd hx reach_nil
+  · rw [selectWanted_none_iff g hr, select_error_iff g hr]
+
+/-- success or failure of `ForEachService` does not depend on the iteration order of the maps -/
+theorem forEach_outcome_perm {p p' : Proj} (g : Good p) (e : SameProj p p') (names : List String) (opts : List Policy) :
+    forEachCalls p names opts = .noSuchService ↔ forEachCalls p' names opts = .noSuchService := by
+  have es := lookEq_of_perm e.1 g.1.1
+  have g' : Good p' := ⟨partition_perm g.1 e, fun kv hkv => g.2.1 kv (by
+    rcases List.mem_append.1 hkv with a | a
+    · exact List.mem_append_left _ (e.1.mem_iff.2 a)
+    · exact List.mem_append_right _ (e.2.1.mem_iff.2 a)), namesOK_perm g.2.2 e.1 e.2.1⟩
+  have roots : ∀ r, r ∈ rootsOf p names ↔ r ∈ rootsOf p' names := by
+    intro r
+    unfold rootsOf
+    by_cases hn : names.isEmpty = true
+    · simp only [hn, if_true]; exact mem_keys_lookEq es r
+    · simp only [hn]; exact Iff.rfl
+  have mr : ∀ x, MissingRequired p.services (policyOf opts) x ↔ MissingRequired p'.services (policyOf opts) x := by
+    intro x
+    unfold MissingRequired
+    rw [es x]
+    cases lookup x p'.services with
+    | none => simp [sat]
+    | some s => simp only [sat, mem_keys_lookEq es]
+  rw [forEach_error_iff' g, forEach_error_iff' g']
+  constructor
+  · rintro (⟨n, a, b⟩ | ⟨x, a, b⟩)
+    · exact .inl ⟨n, (roots n).1 a, fun c => b ((mem_keys_lookEq es n).2 c)⟩
+    · exact .inr ⟨x, Reach.mono (fun r hr => (roots r).1 hr) (reach_lookEq es a), (mr x).1 b⟩
+  · rintro (⟨n, a, b⟩ | ⟨x, a, b⟩)
+    · exact .inl ⟨n, (roots n).2 a, fun c => b ((mem_keys_lookEq es n).1 c)⟩
+    · exact .inr ⟨x, Reach.mono (fun r hr => (roots r).2 hr) (reach_lookEq (fun k => (es k).symm) a), (mr x).2 b⟩
+
 /-! ## round 5: accessors -/
 
 /-- `ServiceNames()` is the sorted list of the enabled keys … -/
